@@ -114,13 +114,15 @@ Definition nearest_point (cvs : list (list T)) (v : list Z -> T) (x : list T) : 
 
 (* ---- values: flat C-order list with a shape, NumPy subscripts per axis ---- *)
 Definition prodn (l : list nat) : nat := fold_right Nat.mul 1%nat l.
-Fixpoint flat_index (shape : list nat) (idx : list Z) : nat :=
-  match shape, idx with
-  | n :: sh, i :: ix => (wrap n i * prodn sh + flat_index sh ix)%nat
+Fixpoint nat_index (shape : list nat) (js : list nat) : nat :=
+  match shape, js with
+  | n :: sh, j :: js' => (j * prodn sh + nat_index sh js')%nat
   | _, _ => O
   end.
-Definition vget (shape : list nat) (flat : list T) (idx : list Z) : T :=
-  nth (flat_index shape idx) flat nzero.
+(* the array as a function of NumPy subscripts: wrap each subscript, then C-order offset *)
+Definition wrapped (shape : list nat) (G : list nat -> T) (idx : list Z) : T := G (map2 wrap shape idx).
+Definition vget (shape : list nat) (flat : list T) : list Z -> T :=
+  wrapped shape (fun js => nth (nat_index shape js) flat nzero).
 
 (* ---- calling conventions ----
    point array of shape (d, N): N points, each evaluated on its own *)
